@@ -176,7 +176,8 @@ def judge(case, col):
 
 def cases():
     by_id = gens.cell_ids(4, 29).map(lambda c: {"cell": hex(c)})
-    special = st.one_of(gens.pts_antimeridian(), gens.pts_antimeridian(), gens.pts_polar(), gens.pts_pole_exact(), gens.pts_frame_nbhd())
+    special = st.one_of(gens.pts_antimeridian(), gens.pts_antimeridian(), gens.pts_polar(), gens.pts_pole_exact(), gens.pts_frame_nbhd(),
+                        gens.pts_face_edge(), gens.pts_face_edge(), gens.pts_seam())
     by_loc = st.builds(lambda p, r: {"lon": p["lon"], "lat": p["lat"], "res": r}, special, gens.resolutions(2, 29))
     return st.one_of(by_id, by_loc, by_loc)
 
